@@ -144,6 +144,16 @@ func (m *Mon) updateLedgers(sc *StepCtx) {
 				} else if sc.Step.Mod != nil {
 					f, to = sc.Step.Mod.Freq, sc.Step.Mod.Timeout
 				}
+				if sc.Step.Mod != nil && sc.Step.Mod.Threshold != 0 {
+					t.NamedThreshold = sc.Step.Mod.Threshold
+				}
+				// C06: an accepted update of the response threshold takes effect
+				if t.Module != "" && t.NamedThreshold != 0 {
+					m.hit("C06", "threshold-as-named", "")
+					if rc.ResponseThreshold != t.NamedThreshold {
+						m.fail(sc, "C06", "threshold", "stored-differs-from-named", "after %s context %.16s has response threshold %d, its module named %d", sc.Step.Desc, id, rc.ResponseThreshold, t.NamedThreshold)
+					}
+				}
 				if f != 0 {
 					t.NamedFreq = f
 				}
@@ -160,6 +170,7 @@ func (m *Mon) updateLedgers(sc *StepCtx) {
 		if !t.NamedSet && sc.Idx >= 0 {
 			// first sight: the terms the call fixed (a zero frequency means "same as the timeout")
 			t.NamedSet, t.NamedFreq, t.NamedTimeout = true, rc.RepeatedFrequency, rc.Timeout
+			t.NamedThreshold = rc.ResponseThreshold
 		}
 		if t.Providers == nil {
 			t.Providers = provHex(rc.Providers)
@@ -189,7 +200,14 @@ func (m *Mon) updateLedgers(sc *StepCtx) {
 			m.c10OnAdvance(sc, t, prc, rc, adv)
 			t.Advances = append(t.Advances, adv)
 			t.Batches[rc.BatchCounter] = &BatchInfo{Counter: rc.BatchCounter, StartStep: sc.Idx, StartH: pre.Height, ExpH: pre.Height + prc.Timeout,
-				Threshold: rc.BatchResponseThreshold, Issued: issued, Module: rc.ModuleName}
+				Threshold: prc.ResponseThreshold, Issued: issued, Module: rc.ModuleName}
+			// the batch is judged against the response threshold in force when it started
+			if rc.ModuleName != "" {
+				m.hit("C12", "threshold-snapshot", "")
+				if rc.BatchResponseThreshold != prc.ResponseThreshold {
+					m.fail(sc, "C12", "threshold-snapshot", "", "context %.16s batch %d started under response threshold %d but records %d for the batch", id, rc.BatchCounter, prc.ResponseThreshold, rc.BatchResponseThreshold)
+				}
+			}
 		}
 		if sc.IsRestart() {
 			for _, bi := range t.Batches {
